@@ -13,6 +13,7 @@ import itertools
 from mc import backends, compare, core, diff, explorer, inputs, menus
 from mc import hist as H
 from mc.props import c01
+from mc.hist import C, V, O, M, F
 
 PROP = "C10"
 
@@ -66,6 +67,35 @@ def narrowed_history(hist, used):
 def restrict(table, keep):
     idx = [j for j, c in enumerate(table["columns"]) if c in keep]
     return {"columns": [table["columns"][j] for j in idx], "types": {c: table["types"][c] for c in keep if c in table["types"]}, "rows": [tuple(r[j] for j in idx) for r in table["rows"]]}
+
+
+def shared_dag_menu(cols, roles, depth, hist):
+    """a shared (non-table) node reached by two paths that ask it for different column subsets:
+    step 1 derives columns, step 2 narrows one path, step 3 joins / stacks it with the same step-1 object narrowed differently"""
+    K, N = menus._pick(cols, roles)
+    if depth == 0:
+        return [
+            {"op": "extend", "ops": {"z": O("+", C("x"), V(1))}},
+            {"op": "extend", "ops": {"z": O("*", C("x"), C("y"))}},
+            {"op": "extend", "ops": {"x": O("+", C("x"), V(1)), "z": O("*", C("y"), V(2))}},
+            {"op": "extend", "ops": {"z": M("sum", C("y"))}, "partition_by": ["g"]},
+            {"op": "select_rows", "expr": O(">", C("x"), V(1))},
+        ]
+    if depth == 1:
+        sels = [["g", "z"], ["g", "x"], ["g", "y"], ["g", "x", "z"]]
+        return [{"op": "select_columns", "columns": s} for s in sels if set(s) <= set(cols)] + [{"op": "drop_columns", "columns": ["y"]}]
+    if depth == 2:
+        items = []
+        for s2 in (["g", "z"], ["g", "y"], ["g", "x", "y"], ["g", "x"]):
+            b = {"prefix": 1, "steps": [{"op": "select_columns", "columns": [c for c in s2]}]}
+            try_cols = set(s2)
+            items.append({"op": "natural_join", "b": b, "on": ["g"], "jointype": "LEFT"})
+            items.append({"op": "natural_join", "b": b, "on": ["g"], "jointype": "INNER"})
+            if try_cols == set(cols):
+                items.append({"op": "concat_rows", "b": b, "id_column": None})
+        items.append({"op": "natural_join", "b": {"prefix": 1}, "on": ["g"], "jointype": "LEFT"})
+        return items
+    return []
 
 
 def work(hists, cfg, open_ids):
@@ -145,7 +175,7 @@ def work(hists, cfg, open_ids):
 def run(tier):
     run = core.Run(PROP, tier)
     cfg = {"kd": 2, "ke": 1, "per_column": tier != "quick"}
-    ex = explorer.Explorer(menus.core_menu)
+    ex = explorer.Explorer(menus.core_menu_q if tier == "quick" else menus.core_menu)
     states = ex.run(2)
     hists = [s.hist for s in states]
     st = ex.stats()
@@ -157,6 +187,13 @@ def run(tier):
         hists += add
         st["states"] += len(add)
         st["transitions"] += ex2.stats()["transitions"]
+    ex3 = explorer.Explorer(shared_dag_menu)
+    st3 = ex3.run(3)
+    seen_h = {H.hist_key(h) for h in hists}
+    add3 = [s.hist for s in st3 if H.hist_key(s.hist) not in seen_h]
+    hists += add3
+    st["states"] += len(add3)
+    st["transitions"] += ex3.stats()["transitions"]
     hists = core.rotate(hists, run.seed)
     for p in core.pmap(work, [(c, cfg, list(run.open_findings)) for c in core.chunks(hists, 30)]):
         run.merge(p)
@@ -170,8 +207,9 @@ def run(tier):
     ]
     return run.finish(
         exhaustive=True,
-        rule="every pipeline reachable in <= 2 builder calls over the core menu"
+        rule="every pipeline reachable in <= 2 builder calls over the core menu" + (" (quick tier: the first call from a thinner one-per-shape selection of the menu, every later call from the full menu)" if tier == "quick" else "")
         + (" plus <= 3 over the SQL-translation slice" if tier != "quick" else "")
+        + " plus <= 3 calls over the shared-DAG slice (a derived node narrowed differently on two paths that are then joined or stacked)"
         + " that leaves some input column unreported x all multisets of <= 2 rows x every perturbation (all-null, each domain constant, reversed, alternating) of the unreported columns, on Pandas and SQLite; plus the narrowed replay on restricted inputs",
     )
 
